@@ -1,31 +1,14 @@
 import Pycoin.Driver.Core
-import Pycoin.Model.Address
-import Pycoin.Model.Base58
-import Pycoin.Model.Bech32
-import Pycoin.Model.Hash
+import Pycoin.Model.RealEnv
 /-!
 C08 ops.  Networks are named by their module under pycoin/symbols (`btc`, `xtn`, …); text arguments travel as the
-hex of their UTF-8 bytes.  `realEnv` plugs the C11 codec models and the hash models into the address model.
+hex of their UTF-8 bytes.  `realEnv` (Model/RealEnv.lean) plugs the C11 codec models and the hash models into the address model.
 -/
 namespace Pycoin.Driver.C08
 open Pycoin.Addr Pycoin.Driver
 
-def asciiString (b : Bytes) : String := String.ofList (b.map (fun x => Char.ofNat x.toNat))
-
-def realEnv : Env where
-  b58cEnc d := match Base58.b2aHashed d with
-    | .ok s => asciiString s
-    | .error _ => "<b2a_hashed_base58 raised>"     -- C11_b58check_rt: never
-  b58cDec s := Base58.parseB58DoubleSha256 s.toUTF8.toList
-  segwitEnc hrp ver prog := match Bech32.encode hrp.toList ver (prog.map (·.toNat)) with
-    | .ok (some cs) => some (String.ofList cs)
-    | _ => none
-  bech32Parse s := match Bech32.parseBech32 s.toList with
-    | some (hrp, ver, dec, spec) =>
-      some (String.ofList hrp, ver, dec.map UInt8.ofNat, match spec with | .bech32 => .bech32 | .bech32m => .bech32m)
-    | none => none
-  hash160 := Hash.hash160
-  sha256 := Hash.sha256
+/-- the codec/hash instance (defined in `Model/RealEnv.lean`; other drivers refer to it under this name) -/
+def realEnv : Env := Pycoin.Addr.realEnv
 
 def parseText? (s : String) : Option String := do
   let b ← parseHex? s
